@@ -227,6 +227,8 @@ class Sym:
             return ("cast", e, rv["from"], rv["to"])
         if k == "binop":
             a, b = self.operand(st, rv["a"]), self.operand(st, rv["b"])
+            if rv["op"].endswith("WithOverflow"):
+                return ("agg", "tuple", "", (("0", fold_bin(rv["op"].replace("WithOverflow", ""), a, b)), ("1", ("const", "bool", 0))))
             return fold_bin(rv["op"], a, b)
         if k == "unop":
             return ("un", rv["op"], self.operand(st, rv["a"]))
@@ -288,6 +290,17 @@ class Sym:
             if is_none_agg(args[0]):
                 return ("diverge",)
             return payload(args[0])
+        if re.search(r"<impl (usize|u64|u32|i64|isize)>::checked_(sub|add)$", name) and len(args) == 2 and args[0][0] == "const" and args[1][0] == "const" \
+                and isinstance(args[0][2], int) and isinstance(args[1][2], int):
+            r_ = args[0][2] - args[1][2] if short == "checked_sub" else args[0][2] + args[1][2]
+            unsigned = not re.search(r"<impl i", name)
+            return NONE if (r_ < 0 and unsigned) else mk_some(("const", args[0][1], r_))
+        if name.endswith("ops::Try::branch") and len(args) == 1 and args[0][0] == "agg" and args[0][1] in ("adt:Some", "adt:Ok", "adt:None", "adt:Err"):
+            if args[0][1] in ("adt:Some", "adt:Ok"):
+                return ("agg", "adt:Continue", "std::ops::ControlFlow", (("0", args[0][3][0][1]),))
+            return ("agg", "adt:Break", "std::ops::ControlFlow", (("0", args[0]),))
+        if name.endswith("FromResidual::from_residual") and len(args) == 1 and args[0][0] == "agg" and args[0][1] in ("adt:None", "adt:Err"):
+            return args[0]
         # the writer's option builders (`fn large_file(mut self, v) -> Self { self.large_file = v; self }`): a field update of the
         # receiver, so that a builder chain and a struct literal denote the same options value
         mb = re.search(r"^write::FileOptions::(large_file|last_modified_time|compression_method|compression_level|unix_permissions)$", name)
@@ -308,6 +321,22 @@ class Sym:
         return ("call", name, tuple(args), self._ncalls)
 
     # ------------------------------------------------------------------ driver
+    def explore(self, max_visits=4):
+        """bounded exploration for small state machines written as a loop (a component walk): every block may be visited up to
+        `max_visits` times on a path; returns [dict(ret=<value of _0>, conds=[...])] for the paths that reach `return`"""
+        self._max_visits = max_visits
+        self._returns = []
+        try:
+            self.run(lambda bb, t: False)
+            return self._returns
+        finally:
+            self._max_visits = 1
+            res = self._returns
+            self._returns = None
+
+    _max_visits = 1
+    _returns = None
+
     def run(self, stop):
         """stop(bb, term) -> truthy for the call terminators of interest. Returns [dict(bb, term, args, state)] -- one per path and
         site (a path continues after a site)."""
@@ -318,9 +347,15 @@ class Sym:
 
         def go(bb, st, visited):
             while True:
-                if bb in visited:
-                    return          # a loop is entered once
-                visited = visited | {bb}
+                if self._max_visits == 1:
+                    if bb in visited:
+                        return          # a loop is entered once
+                    visited = visited | {bb}
+                else:
+                    n_ = sum(1 for x in visited if x == bb)
+                    if n_ >= self._max_visits:
+                        return
+                    visited = visited + (bb,)
                 blk = fn.blocks[bb]
                 if blk.get("cleanup"):
                     return
@@ -381,9 +416,11 @@ class Sym:
                             self._write_key(s2, l, p, NONE if isnone else mk_some(payload(d[3])))
                         go(b2, s2, visited)
                     return
+                if k == "return" and self._returns is not None:
+                    self._returns.append(dict(ret=self._read_key(st, 0, ()), conds=list(st.conds)))
                 return      # return / unreachable / resume
 
-        go(0, State(), frozenset())
+        go(0, State(), frozenset() if self._max_visits == 1 else ())
         return out
 
 
